@@ -118,7 +118,11 @@ func c01EveryRecordWritten(c *Ctx, p *Prog) {
 		n++
 		writes := blocksWhere(h, func(in ssa.Instruction) bool { return usesAddrOfField(in, bufF) })
 		bad := ""
-		for b := range reachFrom(h.Blocks[0], writes) {
+		reachH := reachFrom(h.Blocks[0], writes)
+		for _, b := range h.Blocks {
+			if !reachH[b] {
+				continue
+			}
 			if _, ok := b.Instrs[len(b.Instrs)-1].(*ssa.Return); ok {
 				bad = p.pos(b.Instrs[len(b.Instrs)-1].Pos())
 				if bad == "" {
@@ -1546,7 +1550,11 @@ func c11WrapperCallsFirst(c *Ctx, p *Prog) {
 		return ok
 	})
 	bad := ""
-	for b := range reachFrom(fn.Blocks[0], calls) {
+	reachC := reachFrom(fn.Blocks[0], calls)
+	for _, b := range fn.Blocks {
+		if !reachC[b] {
+			continue
+		}
 		if ret, ok := b.Instrs[len(b.Instrs)-1].(*ssa.Return); ok {
 			bad = p.pos(ret.Pos())
 		}
